@@ -12,7 +12,6 @@ import (
 	"time"
 
 	"github.com/internetarchive/Zeno/internal/pkg/config"
-	"github.com/internetarchive/Zeno/internal/pkg/controler"
 	"github.com/internetarchive/Zeno/internal/verif/vc"
 	"github.com/internetarchive/Zeno/pkg/models"
 )
@@ -310,7 +309,7 @@ func c02Child(scPath string) int {
 			checkSeed(seed.GetID(), seq, "at the finish notification of")
 		}
 	}
-	controler.Start()
+	pr.start(false)
 	verdict := pr.waitQuiescent(6500*time.Millisecond, 12*time.Second, 150*time.Second)
 	rep.Evaluations = 1
 	rep.Extra["verdict"] = verdict
